@@ -322,6 +322,8 @@ class DataFormat(object):
         if name == KEY_ENCODING:
             try:
                 codecs.lookup(value)
+                # Codecs such as "base64", "hex" or "undefined" exist but cannot be used to read or write text.
+                "".encode(value)
             except (LookupError, ValueError):
                 raise errors.InterfaceError(
                     "value for data format property %s is %s but must be a valid encoding"
